@@ -234,6 +234,7 @@ func runC06(c *kit.Ctx) {
 
 	// ---- R4 ---------------------------------------------------------------
 	c.StartRule("R4", "next start row comes from the answered region", 2)
+	renewerNeverEndsTheScan(c)
 	{
 		startRowF := p.Field("", "scanner", "startRow")
 		regionP := paramOfType(upd, "/hrpc.RegionInfo", 0)
